@@ -11,8 +11,6 @@
 //!   mutants/C05-eku-first-wins.diff      (has_allowed_eku accepts the first "other" EKU)
 //!   mutants/C05-anchors-only-ignored.diff (trust-anchor-only mode still consults user anchors)
 
-use std::collections::BTreeMap;
-
 use c2pa::crypto::cose::{CertificateTrustPolicy, TrustAnchorType};
 use kit::{
     par,
@@ -580,8 +578,6 @@ pub fn run(run: &Run, replay: Option<&Value>) {
 
     // direct seam
     let ditems: Vec<(&str, KeyKind, &str)> = items.iter().filter(|i| i.2 == "email").map(|i| (i.0, i.1, i.3)).collect();
-    let before = BTreeMap::<u8, u8>::new();
-    let _ = before;
     run.space("CertificateTrustPolicy: (shape, key type, chain) x (system anchor, user anchor) x allow list x trust-anchor-only", ditems.len() as u64 * 5 * 5 * 3 * 2, true);
     par::for_each(&ditems, |(shape, kind, chain)| {
         let w = world(shape, *kind, "email");
